@@ -2215,6 +2215,14 @@ impl TieredEngine {
         self.hot_tier
             .insert_with_coherence(doc_id, embedding, metadata, coherence);
 
+        // A delete (or a newer overwrite) may have completed between the canonical write and
+        // the mirror insert above; it found no mirror entry of ours to remove. Take the entry
+        // back instead of leaving an orphan that the next drain would "repair" into the cold
+        // tier, resurrecting the deleted document.
+        if self.cold_tier.current_coherence_token(doc_id) != Some(coherence) {
+            self.hot_tier.delete_if_coherence(doc_id, coherence);
+        }
+
         let mut stats = self.stats.write();
         stats.total_inserts += 1;
 
